@@ -142,6 +142,21 @@ try:
                      {"history": hist, "failing": n},
                      what="three writes handed to a leader whose followers were frozen for 6.5 s: no standalone execution order explains reply %s of %s" % (
                          ks.show_reply(n["got"]), ks.show_argv(n["argv"])))
+    # several connections proposing through ONE node at the same moment (no faults): every reply and every final value is
+    # the standalone one
+    csp, csstats = None, {}
+    for attempt in range(2):
+        csp, csstats = clusterscen.concurrent_same_node()
+        if csp is not None:
+            break
+    cov["concurrent_clients_one_node"] = csstats
+    seen_cs = set()
+    for pr in csp or []:
+        if pr["kind"] in seen_cs:
+            continue
+        seen_cs.add(pr["kind"])
+        v.report({"branch": "cluster.one-node-concurrent", "kind": pr["kind"], "detail": ""}, pr,
+                 what="six connections through one node of a healthy 3-node cluster, each on its own keys: %s" % pr["detail"])
     for pr in lprobs or []:
         v.report({"branch": "cluster.own-reply", "kind": pr["kind"], "detail": ""}, pr,
                  what="one client per node in lock step (a standalone server answers every command with its own result): %s" % pr["detail"])
